@@ -1061,6 +1061,11 @@ impl AsyncWrite for TcpStream {
     }
 }
 
+/// simulated port of the client endpoint a node opened through `TcpListener::from_std`
+pub fn sim_tcp_port_of(node: NodeId) -> u16 {
+    18000 + (node % 1000) as u16
+}
+
 pub struct TcpListener {
     l: ListenerRef,
     addr: StdSocketAddr,
@@ -1075,8 +1080,12 @@ impl TcpListener {
     /// The real server builds its listener with socket2 and hands it over as a std listener; in
     /// simulation the std listener is only used for its address.
     pub fn from_std(l: std::net::TcpListener) -> io::Result<TcpListener> {
-        let sa = l.local_addr()?;
+        let mut sa = l.local_addr()?;
         drop(l);
+        // the harness lets the real socket bind to port 0 (parallel worker processes must not fight
+        // over one kernel port); the kernel's choice must not enter the run, so the simulated
+        // endpoint gets a port that is a function of the node alone
+        sa.set_port(sim_tcp_port_of(ctx::current_node()));
         let l = register_listener(Addr::Tcp(sa))?;
         Ok(TcpListener { l, addr: sa })
     }
